@@ -176,3 +176,68 @@ def models(args) -> int:
     check("graph: leaving edge detected", bool(graph.wellformed_errors(np.ones((2, 2, 2), dtype=np.bool_), (2, 2))))
     print(f"models selftest: {bad} failure(s)")
     return 1 if bad else 0
+
+
+def _apply_edits(wt: str, m: dict) -> str | None:
+    "apply a mutant's exact-text edits inside worktree `wt`; returns an error string or None"
+    for e in m["edits"]:
+        f, old, new = (m["file"], e[0], e[1]) if len(e) == 2 else e
+        p = os.path.join(wt, f)
+        txt = open(p).read()
+        if txt.count(old) != 1:
+            return f"edit anchor occurs {txt.count(old)} times in {f}: {old[:60]!r}"
+        open(p, "w").write(txt.replace(old, new))
+    r = subprocess.run([core.PYTHON, "-c", "import sys; sys.path.insert(0, %r); import warnings; warnings.filterwarnings('ignore'); import maze_dataset, maze_dataset.tokenization.all_tokenizers" % wt], capture_output=True, text=True, cwd="/tmp")
+    if r.returncode != 0:
+        return "does not import: " + r.stderr.strip()[-300:]
+    return None
+
+
+def mutants(args) -> int:
+    "sensitivity matrix over the hand-written mutants in /verif/mutants/mutants.py"
+    sys.path.insert(0, os.path.join(VERIF, "mutants"))
+    import mutants as mm  # type: ignore
+
+    sel = [m for m in mm.MUTANTS if not args.ids or m["id"] in args.ids or m["property"] in [x.upper() for x in args.ids]]
+    matrix_path = os.path.join(VERIF, "mutants", "matrix.json")
+    matrix = json.load(open(matrix_path)) if os.path.exists(matrix_path) else {}
+    rc = 0
+    for m in sel:
+        wt = tempfile.mkdtemp(prefix="mdsim-mutant-")
+        os.rmdir(wt)
+        side = tempfile.mkdtemp(prefix="mdsim-mutant-out-")
+        row = {"property": m["property"], "expect": m["expect"], "note": m["note"]}
+        try:
+            subprocess.run(["git", "-C", "/repo", "worktree", "add", "-f", "--detach", wt, "HEAD"], check=True, capture_output=True)
+            err = _apply_edits(wt, m)
+            if err:
+                row.update(result="BROKEN-MUTANT", detail=err)
+                rc = 1
+            else:
+                env = dict(os.environ, MDSIM_REPO=wt, MDSIM_REPLAY_DIR=os.path.join(side, "replays"), MDSIM_EVIDENCE_DIR=os.path.join(side, "evidence"))
+                tiers = [args.tier] if args.tier else (["quick"] if m.get("tier", "quick") == "quick" else ["quick", "thorough"])
+                for tier in tiers:
+                    t0 = time.time()
+                    r = subprocess.run([os.path.join(VERIF, "check"), "run", m["property"], "--tier", tier], capture_output=True, text=True, env=env, cwd=VERIF)
+                    lines = r.stdout.splitlines()
+                    viol = [l for l in lines if l.startswith("VIOLATION")]
+                    first = next((l for l in lines if l.startswith("  minimised")), "") or next((l for l in lines if l.startswith("violation candidate")), "")
+                    summ = next((l for l in reversed(lines) if l.startswith("mdsim " + m["property"] + ":")), lines[-1] if lines else "")
+                    row[tier] = {"exit": r.returncode, "seconds": round(time.time() - t0), "violations": len(viol), "first": first.strip()[:300], "summary": summ[:200]}
+                    if r.returncode == 1 and viol:
+                        row["result"] = f"CAUGHT ({tier})"
+                        break
+                    row["result"] = "HARNESS-ERROR" if r.returncode == 2 else "QUIET"
+                ok = (m["expect"] == "caught" and row["result"].startswith("CAUGHT")) or (m["expect"] == "quiet" and row["result"] == "QUIET") or m["expect"] == "either"
+                row["as_expected"] = ok
+                if not ok:
+                    rc = 1
+        finally:
+            subprocess.run(["git", "-C", "/repo", "worktree", "remove", "--force", wt], capture_output=True)
+            shutil.rmtree(wt, ignore_errors=True)
+            shutil.rmtree(side, ignore_errors=True)
+        matrix[m["id"]] = row
+        print(f"{m['id']:45s} {m['property']} expect={m['expect']:7s} -> {row.get('result')}  {json.dumps({k: v for k, v in row.items() if k in ('quick', 'thorough', 'detail')})[:420]}", flush=True)
+        with open(matrix_path, "w") as f:
+            json.dump(matrix, f, indent=1, sort_keys=True)
+    return rc
